@@ -70,15 +70,16 @@ func StrictValiditySignatureCheck(atTs, validUntil spec.Timestamp) bool {
 	// Servers MUST use the lesser of valid_until_ts and 7 days into the
 	// future when determining if a key is valid.
 	// https://matrix.org/docs/spec/rooms/v5#signing-key-validity-period
-	sevenDaysFuture := time.Now().Add(time.Hour * 24 * 7)
-	validUntilTS := validUntil.Time()
-	if validUntilTS.After(sevenDaysFuture) {
-		validUntilTS = sevenDaysFuture
+	//
+	// Compare the millisecond counts themselves rather than time.Time values:
+	// a timestamp of 2^63 ms or more does not fit a time.Time and would wrap
+	// around into the distant past, making a key look valid at an instant far
+	// beyond its validity (or a key with such a valid_until_ts never valid).
+	sevenDaysFuture := spec.AsTimestamp(time.Now().Add(time.Hour * 24 * 7))
+	if validUntil > sevenDaysFuture {
+		validUntil = sevenDaysFuture
 	}
-	if atTs.Time().After(validUntilTS) {
-		return false
-	}
-	return true
+	return atTs <= validUntil
 }
 
 // NoStrictValidityCheck doesn't perform any validation of potentially expired signing keys.
